@@ -260,6 +260,104 @@ func ruleDevFields(c *Ctx) []Obligation {
 			}
 		}
 	}
+	// presence: a property is changed only when the deviate statement carries it. Each store sits under a test that
+	// the deviate entry's same-named property is set (or its recorded presence flag is).
+	entryT := c.MustNamed("yang", "Entry")
+	specField := func(v ssa.Value, leaf string) bool {
+		// v loads (or is len of) field `leaf`, or a presence flag has<leaf>, of an Entry other than the target
+		_, fl, base := loadedField(v)
+		if fl == nil {
+			return false
+		}
+		nm := recordedFieldName(fl)
+		if nm != leaf && !strings.EqualFold(nm, "has"+leaf) {
+			return false
+		}
+		root := resolveArg(rootOf(base))
+		if root == m.target {
+			return false
+		}
+		for b := base; ; {
+			if pt, isP := b.Type().Underlying().(*types.Pointer); isP && namedOf(pt.Elem()) == entryT || namedOf(b.Type()) == entryT {
+				return true
+			}
+			_, _, up := fieldOf(b)
+			if up == nil {
+				if u, isU := b.(*ssa.UnOp); isU {
+					b = u.X
+					continue
+				}
+				return false
+			}
+			b = up
+		}
+	}
+	presenceTest := func(g Guard, leaf string) bool {
+		if specField(g.Cond, leaf) && isBoolType(g.Cond.Type()) {
+			return g.Branch
+		}
+		bo, isB := g.Cond.(*ssa.BinOp)
+		if !isB {
+			return false
+		}
+		x, y, op := bo.X, bo.Y, bo.Op
+		if _, isK := x.(*ssa.Const); isK {
+			x, y = y, x
+			op = map[token.Token]token.Token{token.LSS: token.GTR, token.GTR: token.LSS, token.LEQ: token.GEQ, token.GEQ: token.LEQ, token.EQL: token.EQL, token.NEQ: token.NEQ}[op]
+		}
+		if !g.Branch {
+			op = map[token.Token]token.Token{token.LSS: token.GEQ, token.GTR: token.LEQ, token.LEQ: token.GTR, token.GEQ: token.LSS, token.EQL: token.NEQ, token.NEQ: token.EQL}[op]
+		}
+		k, isK := y.(*ssa.Const)
+		if !isK {
+			return false
+		}
+		zero := k.Value == nil || k.Value.ExactString() == "0" || k.Value.ExactString() == `""`
+		one := k.Value != nil && k.Value.ExactString() == "1"
+		if call, isC := x.(*ssa.Call); isC {
+			if bi, isBI := call.Call.Value.(*ssa.Builtin); isBI && bi.Name() == "len" && specField(call.Call.Args[0], leaf) {
+				return zero && (op == token.GTR || op == token.NEQ) || one && op == token.GEQ
+			}
+			return false
+		}
+		return specField(x, leaf) && zero && op == token.NEQ
+	}
+	for _, kind := range []string{"add", "replace", "delete"} {
+		var fields []string
+		for f := range written[kind] {
+			fields = append(fields, f)
+		}
+		sort.Strings(fields)
+		for _, f := range fields {
+			leaf := f
+			if k := strings.LastIndex(f, "."); k >= 0 {
+				leaf = f[k+1:]
+			}
+			for i, st := range written[kind][f] {
+				con := fmt.Sprintf("deviate %s: target.%s is written only when the statement carries %s", kind, f, leaf)
+				if i > 0 {
+					con = fmt.Sprintf("%s #%d", con, i+1)
+				}
+				at := st.Block()
+				if st.Parent() != m.fn {
+					if l := liftAll(st, m.fn, 0); len(l) == 1 {
+						at = l[0].Block()
+					}
+				}
+				present := false
+				for _, g := range guardsAt(at) {
+					if presenceTest(g, leaf) {
+						present = true
+					}
+				}
+				if present {
+					obs = append(obs, ok(R, con, c.InstrPos(st), "under a presence test of the deviate entry's "+leaf))
+				} else {
+					obs = append(obs, bad(R, con, c.InstrPos(st), "no dominating test that the deviate statement carries "+leaf+": a deviate that names other properties only would reset or overwrite this one (or be refused because of it)"))
+				}
+			}
+		}
+	}
 	// no target store outside the three writing kinds
 	for k, fs := range written {
 		if k == "add" || k == "replace" || k == "delete" {
